@@ -164,7 +164,7 @@ def run(rep: Report, tier: str) -> None:
                         sq: Any = sqlconc.call_macro(macros, f"vtl_period_to_{fmt}", canon)
                     except sqlconc.SqlError as e:
                         txt = str(e).lower()
-                        claimed = next((code for c, cls, code, _, gs in mapper if holds(c, txt) and guards_hold(P, gs, fetch_sql_arg)), None)
+                        claimed = next((code for c, cls, code, _, gs in mapper if fetch_sql_arg is not None and holds(c, txt) and guards_hold(P, gs, fetch_sql_arg)), None)
                         sq = ("raise", claimed)
                     except sqlexpr.ParseError as e:
                         raise AnalysisError(f"vtl_period_to_{fmt} not evaluable on {canon!r}: {e}")
